@@ -1329,6 +1329,9 @@ class Machine:
         if kind == 'Transmute':
             if isinstance(v, Int) and ty in INT_BITS and INT_BITS[ty] == v.bits:
                 return Int(v.v, ty)
+            if isinstance(v, (BoxObj, Ref)) and (ty.startswith('*const') or ty.startswith('*mut')
+                                                 or 'NonNull' in ty or ty.startswith('&')):
+                return v
             raise Unsupported('transmute to ' + ty)
         raise Unsupported('cast kind ' + kind)
 
